@@ -3,7 +3,7 @@ interpolants, the bracket handed to the root finder is the accepted step and eve
 import ast
 
 from .. import seeds
-from ..front import AnalysisError, dotted, fname, is_self_attr, src, walk_no_nested, ancestors
+from ..front import AnalysisError, dotted, fname, is_self_attr, src, walk_no_nested, ancestors, bind_call
 from ..imodel import IntegrateModel, DS
 from ..kind import KindEngine
 from .c14 import dim_rule, OPT
@@ -67,7 +67,12 @@ def bracket(repo, run, m):
                             "crossing flags are conjoined with the finder's success", floor=5)
     # in integrate: sol_tuple = (self.__sol, prev_time, next_time) with prev/next = t[counter-1], t[counter] after the commit
     hc = m.handle_call
-    st_name = src(hc.args[0])
+    hdef = repo.get(DS, "handle_events")
+    hb = bind_call(hc, hdef)
+    hp = [a.arg for a in hdef.args.args]
+    if hb.get(hp[0]) is None:
+        raise AnalysisError("handle_events call: the solution tuple argument was not found")
+    st_name = src(hb[hp[0]])
     tup = None
     defs = {}
     for st in ast.walk(m.loop):
@@ -89,7 +94,7 @@ def bracket(repo, run, m):
     run.judged(rid, "event search interval = (t[counter-1], t[counter]) of the step just committed", ok=ok)
     if not ok:
         run.report("C08.3", DS, tup or hc, "the interval handed to handle_events is not (start, end) of the step just taken", text="sol_tuple definition")
-    okargs = [src(a) for a in hc.args[1:3]] == ["events", "self.constants"]
+    okargs = [src(hb[q_]) if hb.get(q_) is not None else None for q_ in hp[1:3]] == ["events", "self.constants"]
     run.judged(rid, "handle_events receives all events and the constants", ok=okargs)
     if not okargs:
         run.report("C08.3", DS, hc, "handle_events is not called with (sol_tuple, events, self.constants, ...)")
@@ -112,24 +117,42 @@ def bracket(repo, run, m):
     # ev_f built from all events
     lst = src(c.args[0])
     oka = False
+    factory_calls = []
     for st in fn.body:
         if isinstance(st, ast.For) and isinstance(st.iter, ast.Call) and fname(st.iter) == "zip" and st.iter.args and src(st.iter.args[0]) == P[1]:
-            if any(isinstance(x, ast.Call) and src(x.func) == lst + ".append" for x in ast.walk(st)) and not any(isinstance(x, (ast.If, ast.Break, ast.Continue)) for b in st.body for x in ast.walk(b)):
+            apps = [x for x in ast.walk(st) if isinstance(x, ast.Call) and src(x.func) == lst + ".append"]
+            if apps and not any(isinstance(x, (ast.If, ast.Break, ast.Continue)) for b_ in st.body for x in ast.walk(b_)):
                 oka = True
+                factory_calls += [x.args[0] for x in apps if x.args and isinstance(x.args[0], ast.Call)]
         if isinstance(st, ast.Assign) and src(st.targets[0]) == lst and isinstance(st.value, ast.ListComp) and src(st.value.generators[0].iter) in (P[1], "zip(%s, requires_dstate)" % P[1]) \
                 and not st.value.generators[0].ifs:
             oka = True
+            if isinstance(st.value.elt, ast.Call):
+                factory_calls.append(st.value.elt)
     run.judged(rid, "one search function per event (no filtering)", ok=oka)
     if not oka:
         run.report("C08.3", DS, rf[0], "the list of search functions is not built unconditionally from every event: some event would never be searched", text="ev_f construction")
-    # evaluation of the event uses the dense solution at the query time
-    inner = repo.get(DS, "handle_events.__get_ev_f")
-    bodies = [n for n in ast.walk(inner) if isinstance(n, ast.Return) and isinstance(n.value, ast.Call) and isinstance(n.value.func, ast.Name)]
-    oke = bool(bodies)
-    for r in bodies:
-        a = [src(x) for x in r.value.args]
-        if not (len(a) >= 2 and a[1] == "%s(%s)" % (sol, a[0])):
-            oke = False
+    # evaluation of the event uses the dense solution at the query time: the factory that wraps an event (a nested or a module-level helper) returns
+    # functions t -> event(t, sol(t), ...), where sol is handle_events' own dense solution (closed over, or handed to the factory)
+    oke = False
+    inner = fn
+    for fc in factory_calls:
+        if not isinstance(fc.func, ast.Name):
+            continue
+        inner = repo.maybe(DS, "handle_events." + fc.func.id) or repo.maybe(DS, fc.func.id)
+        if inner is None:
+            continue
+        fb = bind_call(fc, inner)
+        sol_names = {sol} if inner._parent is fn else set()
+        sol_names |= {pn for pn, a_ in fb.items() if isinstance(a_, ast.Name) and a_.id == sol}
+        ev_names = {pn for pn, a_ in fb.items() if isinstance(a_, ast.Name)} - sol_names
+        bodies = [n for n in ast.walk(inner) if isinstance(n, ast.Return) and isinstance(n.value, ast.Call) and isinstance(n.value.func, ast.Name) and n.value.func.id in ev_names]
+        oke = bool(bodies)
+        for r_ in bodies:
+            a_ = r_.value.args
+            if not (len(a_) >= 2 and isinstance(a_[1], ast.Call) and isinstance(a_[1].func, ast.Name) and a_[1].func.id in sol_names and
+                    len(a_[1].args) == 1 and src(a_[1].args[0]) == src(a_[0])):
+                oke = False
     run.judged(rid, "event functions are evaluated at (t, sol(t))", ok=oke)
     if not oke:
         run.report("C08.3", DS, inner, "an event search function does not evaluate the event at (t, sol(t))", text="event evaluation point")
